@@ -240,3 +240,109 @@ Definition judge_c11uci (io : list Z) : list Z :=
     end
   | _ => [0; 99]
   end.
+
+(* stream c11seq: n (commands separated by 257, tokens by 256)
+                  | board-out(fresh driver) then per command: code board-out fcode board-out(fresh)
+   A sequence of position commands on ONE driver, and every command once more alone on a fresh
+   driver.  The judge compares the implementation with itself only:
+   [0; 5] a command is reported differently in the sequence than on a fresh driver (e.g. a rejected
+          FEN silently accepted the second time);
+   [0; 1] after a command that a fresh driver rejects (too few arguments, parser error, piece-count
+          gate) or that is no position command at all the board differs from the board before it;
+   [0; 6] after an accepted command the board is not root + moves as a fresh driver sets it up
+          (hash history included);  [0; 9] panic *)
+Definition tok_is (t : list Z) (w : list Z) : bool := zlist_eqb t w.
+
+Fixpoint judge_seq (cmds : list (list Z)) (pf ph : list Z) (out : list Z) : list Z :=
+  match cmds with
+  | [] => [1]
+  | c :: r =>
+    match out with
+    | code :: o1 =>
+      match split_board_out o1 with
+      | Some (f, h, fcode :: o2) =>
+        match split_board_out o2 with
+        | Some (ff, fh, o3) =>
+          let first := match c with [] => [] | _ => hd [] (jsplit_on 256 c []) end in
+          let is_pos := tok_is first [115; 116; 97; 114; 116; 112; 111; 115] || tok_is first [102; 101; 110] in
+          let rejected := (1 <=? fcode) && (fcode <=? 3) in
+          if negb (code =? fcode) then [0; 5]
+          else if negb is_pos || rejected then
+            (if zlist_eqb f pf && zlist_eqb h ph then judge_seq r f h o3 else [0; 1])
+          else if zlist_eqb f ff && zlist_eqb h fh then judge_seq r f h o3
+          else [0; 6]
+        | None => [0; 99]
+        end
+      | _ => [0; 99]
+      end
+    | [] => [0; 99]
+    end
+  end.
+
+Definition judge_c11seq (io : list Z) : list Z :=
+  match io with
+  | n :: r =>
+    let inp := firstn (Z.to_nat n) r in
+    let out := skipn (Z.to_nat n) r in
+    if is_panic_out out then [0; 9] else
+    match split_board_out out with
+    | Some (f0, h0, o) => judge_seq (jsplit_on 257 inp []) f0 h0 o
+    | None => [0; 99]
+    end
+  | [] => [0; 99]
+  end.
+
+(* stream c11reuse: mode k (flag_i n_i bytes_i)*k | per string: cls [board-out tlen text..] fcls [board-out]
+   One Board value is handed to the parser k times in a row; the second half of each record is the
+   same call on a fresh Board.  [0; 8] the outcome or the position parsed into the reused Board
+   differs from the one parsed into a fresh Board (the parser's result must depend on the text alone);
+   [0; 7] a canonical FEN (flag = 1) is rejected, or the reused Board prints a different text;
+   [0; 9] panic *)
+Fixpoint judge_reuse_items (k : nat) (l : list Z) : list (Z * list Z) * list Z :=
+  match k, l with
+  | S k', flag :: n :: r =>
+      let '(items, rest) := judge_reuse_items k' (skipn (Z.to_nat n) r) in
+      ((flag, firstn (Z.to_nat n) r) :: items, rest)
+  | _, _ => ([], l)
+  end.
+
+Fixpoint judge_reuse (items : list (Z * list Z)) (out : list Z) : list Z :=
+  match items with
+  | [] => [1]
+  | (flag, str) :: r =>
+    match out with
+    | cls :: o1 =>
+      if cls =? 0 then
+        match split_board_out o1 with
+        | Some (f, h, tlen :: o2) =>
+          let text := firstn (Z.to_nat tlen) o2 in
+          match skipn (Z.to_nat tlen) o2 with
+          | fcls :: o3 =>
+            if negb (fcls =? 0) then [0; 8] else
+            match split_board_out o3 with
+            | Some (ff, fh, o4) =>
+              if negb (zlist_eqb f ff && zlist_eqb h fh) then [0; 8]
+              else if (flag =? 1) && negb (zlist_eqb text str) then [0; 7]
+              else judge_reuse r o4
+            | None => [0; 99]
+            end
+          | [] => [0; 99]
+          end
+        | _ => [0; 99]
+        end
+      else
+        match o1 with
+        | fcls :: o2 => if negb (fcls =? cls) then [0; 8] else if flag =? 1 then [0; 7] else judge_reuse r o2
+        | [] => [0; 99]
+        end
+    | [] => [0; 99]
+    end
+  end.
+
+Definition judge_c11reuse (io : list Z) : list Z :=
+  match io with
+  | _ :: k :: r =>
+    let '(items, out) := judge_reuse_items (Z.to_nat k) r in
+    if is_panic_out out then [0; 9] else judge_reuse items out
+  | _ => [0; 99]
+  end.
